@@ -140,8 +140,11 @@ pub fn draw_store_fault_profile(allow_faults: bool) -> &'static str {
                 c.fail_after_pm = 10;
                 c.delay_pm = 80;
                 c.fault_budget = budget;
+                // and one outage: a run of consecutive failures of one node's requests
+                c.outage_pm = 25;
+                c.outage_budget = 1;
             });
-            "mostly-delays"
+            "mostly-delays+outage"
         }
     }
 }
